@@ -1,7 +1,19 @@
 import TuModel.Model.Wire
 import TuModel.Model.BpeTrain
+import TuModel.Model.BpeTrainInc
 namespace Tu.Drive
 open Tu Tu.Wire
+
+/-- lexicographic order on byte strings / pairs, for a canonical form of the statistics -/
+def natsLe : List Nat → List Nat → Bool
+  | [], _ => true
+  | _ :: _, [] => false
+  | a :: as, b :: bs => a < b || (a == b && natsLe as bs)
+def pairLe (p q : List Nat × List Nat) : Bool := if p.1 == q.1 then natsLe p.2 q.2 else natsLe p.1 q.1
+
+/-- entries sorted by pair, per-word counters sorted by word index (the hook reports them sorted) -/
+def canonStats (st : StatsObs) : StatsObs :=
+  (st.map (fun e => (e.1, e.2.1, e.2.2.mergeSort (fun a b => a.1 ≤ b.1)))).mergeSort (fun a b => pairLe a.1 b.1)
 
 def bpeTrainD (op : String) (args : List Nat) : Option String :=
   match op with
@@ -23,7 +35,15 @@ def bpeTrainD (op : String) (args : List Nat) : Option String :=
           | some (k, why) => s!"refuse step {k} " ++ (if why == 1 then "pair-not-maximal" else if why == 2 then "vocabulary" else "statistics")
           | none =>
             -- the loop stops after n merges or when no pair occurs any more
-            if steps.length == n || maxPairFreq (corpusAfter c (steps.map (·.1))) == 0 then "accept" else "refuse stopped-early"
+            if !(steps.length == n || maxPairFreq (corpusAfter c (steps.map (·.1))) == 0) then "refuse stopped-early"
+            -- the FUNCTION model of the incremental bookkeeping (byte_pair_stats / replace_pair / update_stats, line by
+            -- line) reproduces every entry of the observed statistics, including the zeroed ones
+            else if canonStats (bytePairStats c) != canonStats init then "refuse model-initial-statistics"
+            else match trainTrace (c, bytePairStats c) (steps.map (·.1)) with
+              | none => "refuse model-run-fails"
+              | some tr =>
+                if tr.map (fun e => (e.1, canonStats e.2.1, e.2.2)) == steps.map (fun e => (e.1, canonStats e.2.1, e.2.2))
+                then "accept" else "refuse model-trace-differs"
       | none => reject
   | _ => none
 
